@@ -380,8 +380,54 @@ def _scope_cases(max_depth=4):
 SCOPES = _scope_cases()
 
 
+# the token-level parser model (Model/ParseTok.lean): its theorems belong to C06
+PARSETOK_MODULES = ['Bardolph.Props.C06Parse', 'Bardolph.Proofs.ParseTokBase',
+                    'Bardolph.Proofs.ParseTokPrim', 'Bardolph.Proofs.ParseTokRv',
+                    'Bardolph.Proofs.ParseTokStmt', 'Bardolph.Proofs.ParseTokTerm',
+                    'Bardolph.Proofs.ParseTokTop', 'Bardolph.Proofs.ParseTokLex',
+                    'Bardolph.Proofs.ParseTokNum']
+
+
+def parse_text_tie(chk, inputs, stats):
+    """the tie between the real parser and the model `ParseTok` (driver command `parse.text`):
+    every fixed text (rules, nestings, scope cases) and a seeded sample of the generated inputs
+    go to both; outcome class, line and text of every message and — for an accepted text — the
+    whole instruction list must agree.  Texts with white space / digits outside the lexer
+    model's domain are skipped and counted."""
+    import parsetok_check as ptc
+    from bardolph.parser.parse import Parser
+    fixed = [(s, t) for s, t in inputs if s.startswith('rule:') or s == 'nest' or s == 'scope']
+    rest = [(s, t) for s, t in inputs if not (s.startswith('rule:') or s in ('nest', 'scope'))]
+    k = min(len(rest), 20000 if chk.thorough else 3000)
+    sample = fixed + chk.rng.sample(rest, k)
+    tie = {'requested': len(sample), 'outside_lexer_model': 0, 'compared': 0, 'differences': 0,
+           'by_outcome': {}}
+    cases = []
+    seen = set()
+    for stream, text in sample:
+        if text in seen:
+            continue
+        seen.add(text)
+        if ptc.outside_lexer_model(text):
+            tie['outside_lexer_model'] += 1
+            continue
+        cases.append((stream, text))
+    impl = [ptc.impl_outcome(Parser, t) for _, t in cases]
+    answers = ptc.ask_parallel([('parse.text', [t]) for _, t in cases])
+    chk.driver.lines += len(cases)
+    for (stream, text), im, ans in zip(cases, impl, answers):
+        mo = ptc.model_outcome(ans)
+        tie['compared'] += 1
+        tie['by_outcome'][im[0]] = tie['by_outcome'].get(im[0], 0) + 1
+        if not ptc.same(im, mo):
+            tie['differences'] += 1
+            chk.disagreement('parse.text', {'stream': stream, 'text': text[:300]},
+                             ptc.show(im)[:400], ptc.show(mo)[:400])
+    stats['parse_text_tie'] = tie
+
+
 def main():
-    chk = Check('C06', extra_modules=['Bardolph.Proofs.Closed', 'Bardolph.Proofs.ClosedGen', 'Bardolph.Proofs.ClosedSplit', 'Bardolph.Proofs.ClosedLoad'])
+    chk = Check('C06', extra_modules=['Bardolph.Proofs.Closed', 'Bardolph.Proofs.ClosedGen', 'Bardolph.Proofs.ClosedSplit', 'Bardolph.Proofs.ClosedLoad'] + PARSETOK_MODULES)
     chk.lean_phase(sections=set())
     env.configure_basic()
     rng = chk.rng
@@ -415,6 +461,8 @@ def main():
         inputs.append(('valid', text))
     for text, expect, _label in SCOPES:
         inputs.append(('valid' if expect == 'accept' else 'rule:break-outside-loop', text))
+    fixed_texts = [('rule:' + n, t) for n, t in RULES] + [('nest', t) for t in NESTS] + \
+        [('scope', t) for t, _e, _l in SCOPES]
     stats['scope_cases'] = len(SCOPES)
     stats['rules'] = len(RULES)
     for stream, text in inputs:
@@ -485,6 +533,9 @@ def main():
         else:
             chk.nontrivial_case(('a', text))
     run_pumps(chk, pump_inputs(rng, chk.thorough), stats)
+    # ---- tie: real parser vs the model ParseTok on the fixed texts and a seeded sample
+    parse_text_tie(chk, fixed_texts + [(s, t) for s, t in inputs if not s.startswith('rule:')],
+                   stats)
     chk.sample({'stream': 'soup', 'text': inputs[0][1]})
     chk.sample({'stream': 'mutant', 'text': inputs[5][1][:200]})
     chk.sample({'stream': 'noise', 'text': repr(inputs[9][1])})
@@ -500,11 +551,20 @@ def main():
         'text that left error messages, a rule-breaking text that is accepted, a rejected text '
         'that left a program, or an accepted text whose execution on three simulated lights ends in '
         'an internal VM fault (data errors such as division by zero are allowed and counted); '
-        'non-trivial = distinct input with a proper outcome')
+        'non-trivial = distinct input with a proper outcome.  Tie: all rule / nesting / scope texts '
+        'and a seeded sample of the generated inputs are parsed by the real parser AND by the Lean '
+        'model ParseTok (driver `parse.text`); outcome class, line and text of every message and the '
+        'instruction list of an accepted text must be identical (a difference breaks the '
+        'correspondence, it is not a violation of the property)')
     chk.assumptions += ['the keyboard read of `pause` is answered by a stub',
                         'run-time errors of the script\'s own data (division by zero, arithmetic on '
                         'a string, a format spec the value does not support) are not internal faults',
-                        'accepted scripts are executed for at most 0.5 s (then stopped)']
+                        'accepted scripts are executed for at most 0.5 s (then stopped)',
+                        'the parser model does not model Python\'s recursion limit (a text nested '
+                        'some hundred levels deep is rejected by the real parser with "Too many '
+                        'nested levels.", accepted by the model); no generated input is that deep',
+                        'texts with non-ASCII white space or digits are outside the lexer model and '
+                        'are not compared with the parser model (counted in parse_text_tie)']
     if chk.thorough:
         chk.leanchecker()
     chk.finish()
